@@ -151,7 +151,7 @@ func HasData(dir string) (bool, error) {
 // RecoverNode is used to manually force a new configuration, in the event that
 // quorum cannot be restored. This borrows heavily from RecoverCluster functionality
 // of the Hashicorp Raft library, but has been customized for rqlite use.
-func RecoverNode(dataDir string, extensions []string, logger *log.Logger, logs raft.LogStore,
+func RecoverNode(dataDir string, extensions []string, fkEnabled bool, logger *log.Logger, logs raft.LogStore,
 	stable *rlog.Log, snaps raft.SnapshotStore, tn raft.Transport, conf raft.Configuration) error {
 	logPrefix := logger.Prefix()
 	logger.SetPrefix(fmt.Sprintf("%s[recovery] ", logPrefix))
@@ -197,13 +197,15 @@ func RecoverNode(dataDir string, extensions []string, logger *log.Logger, logs r
 		}
 	}
 
-	// Now, open the database so we can replay any outstanding Raft log entries.
+	// Now, open the database so we can replay any outstanding Raft log entries. Foreign
+	// key enforcement must be as it was when the entries were first applied, or a write
+	// that was rejected then could succeed now.
 	drv := sql.DefaultDriver()
 	if len(extensions) > 0 {
 		drv = sql.NewDriver(random.StringPattern("rqlite-extended-recover-xxxx-xxxx-xxxx"),
 			extensions, sql.CnkOnCloseModeDisabled)
 	}
-	db, err := sql.OpenSwappable(tmpDBPath, drv, false, true, 0)
+	db, err := sql.OpenSwappable(tmpDBPath, drv, fkEnabled, true, 0)
 	if err != nil {
 		return fmt.Errorf("failed to open temporary database: %s", err)
 	}
